@@ -3,8 +3,8 @@ from ..oracles import c05
 
 MODELS = ["Aero"]
 STREAMS = [aero_streams.stream_points_and_mesh, aero_streams.stream_eval_mtx, aero_streams.stream_geometry_and_flow, aero_streams.stream_system, aero_streams.stream_chain]
-ORACLES = [c05.oracle_reference]
-UNPROVED = ["sign pinning on a concrete one-panel wing (Gamma > 0, F_z > 0 at positive alpha) is checked by the independent solver, not by a theorem",
+ORACLES = [c05.oracle_reference, c05.oracle_one_panel_signs]
+UNPROVED = ["sign conventions are pinned by theorems on the one-panel rectangular wing only (C05_one_panel_*: AIC > 0, circulation = - v sin a cos b / AIC < 0 and F_z > 0 at positive alpha, any chord, span, |alpha| < 90 deg); for general lattices the signs are those of the independent solver (oracle)",
             "invertibility of the influence matrix is a hypothesis (the theorem is an equivalence between 'residual = 0' and 'tangent')"]
 ASSUMPTIONS = [
     "theorems over R; the Gallina models of all fourteen VLM components are executed against the implementation (1-3 surfaces, left/right/full, ground images, random swept/tapered/twisted/cambered meshes): EvalVelMtx agrees to round-off",
